@@ -9,6 +9,8 @@ import (
 
 	"perun.network/go-perun/channel"
 	"perun.network/go-perun/client"
+	"perun.network/go-perun/wallet"
+	"perun.network/go-perun/wire"
 
 	"verif/sim/gen"
 	"verif/sim/kernel"
@@ -98,11 +100,24 @@ func genC06(r *kernel.Rand, tier string) *kernel.Scenario {
 		}
 		sc.Steps = append(sc.Steps, st)
 	}
+	if r.Bool(0.3) {
+		// a party's software announces itself with a channel synchronisation
+		// message for an open channel (as after a reconnect) while the update
+		// program runs; the peer's client answers with its own view
+		for k := r.Range(1, 3); k > 0; k-- {
+			pos := nch + r.Intn(len(sc.Steps)-nch+1)
+			sy := kernel.St("syncmsg", "ch", r.Intn(nch), "from", r.Intn(2), "delay_us", []int{0, 20, 150, 1000, 4000}[r.Intn(5)])
+			sc.Steps = append(sc.Steps[:pos], append([]kernel.Step{sy}, sc.Steps[pos:]...)...)
+		}
+	}
 	if mode == 3 {
 		// crash points: between updates (after a synchronous step) or while one is in flight (after an asynchronous one)
 		for k := r.Range(1, 2); k > 0; k-- {
 			pos := nch + r.Intn(len(sc.Steps)-nch+1)
 			cr := kernel.St("crash", "side", r.Intn(2), "delay_us", []int{0, 20, 150, 1000}[r.Intn(4)], "down_us", []int{10, 500, 5000}[r.Intn(3)])
+			if r.Bool(0.4) {
+				cr.A["pay_during_us"] = int64([]int{1, 50, 300, 1500}[r.Intn(4)])
+			}
 			sc.Steps = append(sc.Steps[:pos], append([]kernel.Step{cr}, sc.Steps[pos:]...)...)
 		}
 	}
@@ -160,6 +175,36 @@ func execC06(t *testing.T, sc *kernel.Scenario, trace bool) *kernel.Result {
 				}
 			case "crash":
 				p.crashRestart(i, st, hookEnable)
+			case "syncmsg":
+				k, side := int(st.Int("ch")), int(st.Int("from"))&1
+				// the answers are taken by the driver in the announcing party's place
+				// (two library clients would answer each other's answers for ever)
+				p.w.Bus.Sink = func(to string, e *wire.Envelope) bool {
+					_, ok := e.Msg.(*client.ChannelSyncMsg)
+					if ok {
+						s.Count("probe.sync_reply_received", 1)
+					}
+					return ok
+				}
+				p.wg.Add(1)
+				go func() {
+					defer p.wg.Done()
+					time.Sleep(time.Duration(st.Int("delay_us"))*time.Microsecond + s.Delay(fmt.Sprintf("driver:syncmsg:%d", i), 0, time.Microsecond))
+					p.mu.Lock()
+					var ch *client.Channel
+					if k < len(p.chans) {
+						ch = p.chans[k][side]
+					}
+					from, to := p.n[side], p.n[1-side]
+					p.mu.Unlock()
+					if ch == nil {
+						return
+					}
+					msg := &client.ChannelSyncMsg{Phase: channel.Acting, CurrentTX: channel.Transaction{State: ch.State().Clone(), Sigs: make([]wallet.Sig, 2)}}
+					if p.w.Bus.Inject(&wire.Envelope{Sender: from.Wire, Recipient: to.Wire, Msg: msg}, s.Delay(fmt.Sprintf("inject:syncmsg:%d", i), 0, 100*time.Microsecond)) == nil {
+						s.Count("fault.sync_message_during_updates", 1)
+					}
+				}()
 			case "pay":
 				k := int(st.Int("ch"))
 				side := int(st.Int("from")) & 1
@@ -248,6 +293,37 @@ func checkC06(p *pair, sc *kernel.Scenario) {
 		// channel, contexts far longer than all delays -> nothing may time out
 		s.Fail("C06.token-timeout", "%d update request(s) timed out in the token configuration (a reply was lost inside the client)", nTO)
 		return
+	}
+	if mode == 3 && !timedOut {
+		// restart runs without a timed-out request: a successful Update whose
+		// proposer (peer) instance was already running when it started must have
+		// been enabled by that instance, whatever the restart and the channel
+		// synchronisation it triggers were doing at that moment
+		p.mu.Lock()
+		born := p.born
+		p.mu.Unlock()
+		for _, o := range ops {
+			if o.op != "pay" || o.class != "ok" {
+				continue
+			}
+			find := func(l []world.EnabledRec) bool {
+				for i := range l {
+					if bytes.Equal(l[i].Enc, o.proposed) && l[i].SigsOK {
+						return true
+					}
+				}
+				return false
+			}
+			if o.start >= born[o.side] && !find(p.n[o.side].Rec.EnabledOf(o.ch)) {
+				s.Fail("C06.success-not-enabled@proposer", "Update of %s v%d returned nil but the proposer did not enable the proposed state with all signatures (restart run)", s.ChanName(o.ch), o.version)
+				return
+			}
+			if o.start >= born[1-o.side] && born[o.side] <= o.start && !find(p.n[1-o.side].Rec.EnabledOf(o.ch)) {
+				s.Fail("C06.success-not-enabled@peer", "Update of %s v%d returned nil but the peer never enabled the proposed state (restart run)", s.ChanName(o.ch), o.version)
+				return
+			}
+			s.Count("probe.restart_run_success_judged", 1)
+		}
 	}
 	if !strict {
 		s.Count("probe.relaxed_run", 1)
@@ -403,6 +479,28 @@ func (p *pair) crashRestart(step int, st *kernel.Step, hookEnable func(side int)
 	snap := old.Crash()
 	s.Count("fault.crash_restart", 1)
 	time.Sleep(time.Duration(st.Int("down_us"))*time.Microsecond + s.Delay(fmt.Sprintf("crash:down:%d", step), 0, time.Microsecond))
+	p.mu.Lock()
+	p.born[side] = s.Now()
+	p.mu.Unlock()
+	if d := st.Int("pay_during_us"); d > 0 {
+		// the surviving party issues an update while its peer is being restored
+		// (and synchronises the channels with it)
+		p.mu.Lock()
+		var ch *client.Channel
+		if len(p.chans) > 0 {
+			ch = p.chans[0][1-side]
+		}
+		p.mu.Unlock()
+		if ch != nil {
+			p.wg.Add(1)
+			go func() {
+				defer p.wg.Done()
+				time.Sleep(time.Duration(d)*time.Microsecond + s.Delay(fmt.Sprintf("crash:pay-during:%d", step), 0, time.Microsecond))
+				s.Count("fault.update_during_peer_restart", 1)
+				p.pay(step, ch, 1-side, 700+int64(step), 20*time.Second, false)
+			}()
+		}
+	}
 	// the store as of the crash: every channel's current transaction must be fully signed
 	nn, err := old.Restart(snap)
 	if err != nil {
